@@ -89,6 +89,8 @@ def add (red : Bool) (a r : QRep) : Option QRep :=
   let d2 := igcd t d1
   mk3 (idiv t d2) (idiv a.den d1 * idiv r.den d2) 0
 
+/-- `operator+=`; the guard `if (&r == this) { Rational tmp(r); return *this += tmp; }` (7655b35) makes the aliased call the
+    same function of the two stored pairs, so the model needs no alias parameter -/
 def addin (red : Bool) (a r : QRep) : Option QRep :=
   if isZero r then some a else
   if isZero a then some ⟨r.num, r.den⟩ else
@@ -276,6 +278,8 @@ def ofDouble (red : Bool) (s e m : Int) : Option QRep :=
 
 -- ---- qfield.h -------------------------------------------------------------------------------
 def fneg (a : QRep) : QRep := ⟨-a.num, a.den⟩
+/-- `inv(r, a)` / `invin(r)`: `snum = sign(a.num); r = a; std::swap(r.num, r.den); if (snum < 0) { negin(r.num); negin(r.den); }`
+    (since 69bebbc the operand is copied first, so `r` may be `a`) -/
 def finv (a : QRep) : QRep :=
   if isign a.num < 0 then ⟨-a.den, -a.num⟩ else ⟨a.den, a.num⟩
 
